@@ -19,7 +19,11 @@ R = M("1e-9")
 FEPS = M(sys.float_info.epsilon)
 
 
-def gamma_value(name, c, k, mu, sigma_sq, team_size, rank):
+def gamma_value(name, c, k, mu, sigma_sq, team_size, rank, max_member_sigma=None):
+    if name == "mu_dep":
+        return 1 / (1 + abs(mu) / c)
+    if name == "team_sigma":
+        return max_member_sigma / c
     if name == "default":
         return mp.sqrt(sigma_sq) / c
     if name == "zero":
@@ -73,7 +77,7 @@ def reference(kind, teams, values, beta, kappa, tau, gamma="default", limit_sigm
     diag = {"branches": set(), "max_abs_x": 0.0, "t_min": None, "t_max": None, "pairs": 0}
 
     def gam(c, i):
-        return gamma_value(gamma, c, n, tmu[i], tvar[i], len(teams[i]), rk[i])
+        return gamma_value(gamma, c, n, tmu[i], tvar[i], len(teams[i]), rk[i], max(p[1] for p in infl[i]))
 
     if kind == "PL":
         c = mp.sqrt(mp.fsum(v + beta ** 2 for v in tvar))
